@@ -17,8 +17,11 @@ class Ref:
 
 
 def lift(I, x):
+    from ..models import Sym, plain_name
     if isinstance(x, Ref):
         return undef(x.tag)
+    if isinstance(x, Sym):
+        return plain_name(x.tag)
     if isinstance(x, dict):
         return DictV([(lift(I, k), lift(I, v)) for k, v in x.items()])
     if isinstance(x, list):
@@ -92,6 +95,27 @@ def run(ctx) -> None:
     y2r = ctx.p.find_class("Yaml2Regex")
     me = ctx.p.find_class("MacroExpander")
     shape_rules(ctx, I, "C19.O1.undefined-reference-reported", "C19.O4.no-reference-survives", "C19.O2.expander-entered")
+    if ctx.tier == "thorough":
+        # an undefined reference at EVERY position of a set of base rules, with used and with unused definitions
+        from ..treegen import BASES, positions, replace_at
+        n = 0
+        for blabel, base in BASES:
+            for path, kind, val in positions(base):
+                if kind == "subtree":
+                    continue
+                bad = replace_at(base, path, U)
+                for mlabel, macros, extra_items in (("used", M, ["@m"]), ("unused", M, []), ("block", BLOCK, ["@blk"])):
+                    def thunkp(I, macros=macros, pattern=bad + extra_items):
+                        o = I.construct(me, [], {}, None, None)
+                        return I.call_func(me.find_method("resolve_all_macros"), [], {
+                            "macros": lift(I, macros), "pattern_tree": lift(I, {"$and": pattern})}, o, None, None)
+                    for p in I.explore(thunkp):
+                        n += 1
+                        ok = p.kind == "raise" and p.exc.type_name == "ValueError" and any(x.startswith("@") for x in _names(p.exc))
+                        ctx.check(ok, "C19.O1.every-position", f"resolve_all_macros[{blabel}: {kind} at {path}; definitions {mlabel}]"[:130],
+                                  ("returns " + repr(leftovers(p.value)) if p.kind == "return" else repr(p.exc))[:160],
+                                  "an undefined reference at any position of the rule is reported")
+        ctx.extra["positions_tried"] = n
     _rest(ctx, I, me, y2r)
 
 
